@@ -1,12 +1,12 @@
 package e5path
 
 import (
-	"golang.org/x/tools/go/packages"
 	"fmt"
 	"go/ast"
 	"go/constant"
 	"go/token"
 	"go/types"
+	"golang.org/x/tools/go/packages"
 	"sort"
 	"strings"
 
